@@ -1236,8 +1236,9 @@ class Query(Runner):
 
 class SearchAfterExtractor:
     def __init__(self):
-        # extracts e.g. '[1609780186, "2"]' from '"sort": [1609780186, "2"]'
-        self.sort_pattern = re.compile(r"sort\":([^\]]*])")
+        # locates the value after the '"sort":' token, e.g. '[1609780186, "2"]' in '"sort": [1609780186, "2"]'
+        self.sort_pattern = re.compile(r"sort\":\s*")
+        self.decoder = json.JSONDecoder()
 
     def __call__(self, response: BytesIO, get_point_in_time: bool, hits_total: Optional[int]) -> (dict, list):
         # not a class member as we would want to mutate over the course of execution for efficiency
@@ -1264,9 +1265,12 @@ class SearchAfterExtractor:
         """
         response_str = response.getvalue().decode("UTF-8")
         index_of_last_sort = response_str.rfind('"sort"')
-        last_sort_str = re.search(self.sort_pattern, response_str[index_of_last_sort::])
-        if last_sort_str is not None:
-            return json.loads(last_sort_str.group(1))
+        if index_of_last_sort < 0:
+            return None
+        last_sort = self.sort_pattern.match(response_str, index_of_last_sort + 1)
+        if last_sort is not None:
+            # decode exactly one JSON value; sort values may contain any character (including brackets) in strings
+            return self.decoder.raw_decode(response_str, last_sort.end())[0]
         else:
             return None
 
